@@ -131,7 +131,8 @@ class Scan(Scenario):
     max_paths = 4000
 
     def __init__(self, kind, scan_kind, cols, nrows, parallel, fail_row=None, via_mc=False, read=("variables", "fluxes"), max_workers=None,
-                 after_y0_scan=False, dup_labels=False, tps_from_zero=True):
+                 after_y0_scan=False, dup_labels=False, tps_from_zero=True, unknown_col=False):
+        self.unknown_col = unknown_col  # the table has a column that names neither a parameter nor a variable of the model
         self.tps_from_zero = tps_from_zero  # False: the requested grid does not contain the start (the result still does)
         self.after_y0_scan = after_y0_scan  # an earlier scan of the same model was given y0=...: that is that scan's business only
         self.dup_labels = dup_labels  # the scan table repeats a row label: refused, or answered row by row
@@ -146,7 +147,7 @@ class Scan(Scenario):
         self.read = tuple(read)
         self.key = (f"C09/{kind}/{'mc.' if via_mc else ''}{scan_kind}/{'+'.join(cols)}/r{nrows}/"
                     f"{'pool' if parallel else 'seq'}{f'/fail{fail_row}' if fail_row is not None else ''}/{'-'.join(read)}"
-                    f"{'' if max_workers is None else '/workers' + str(max_workers)}{'/after-y0-scan' if after_y0_scan else ''}{'/dup-labels' if dup_labels else ''}{'' if tps_from_zero else '/grid-without-start'}")
+                    f"{'' if max_workers is None else '/workers' + str(max_workers)}{'/after-y0-scan' if after_y0_scan else ''}{'/dup-labels' if dup_labels else ''}{'' if tps_from_zero else '/grid-without-start'}{'/unknown-column' if unknown_col else ''}")
 
     def run(self, ctx):
         import mxlpy.integrators.int_scipy as isc
@@ -231,6 +232,23 @@ class Scan(Scenario):
                     mod.steady_state(m, **pre_kw)
                 else:
                     mod.time_course(m, time_points=np.array(tps), **pre_kw)
+        if self.unknown_col:
+            # an independent run with these values is impossible (update_parameters refuses the name): so must the scan be
+            bad = to_scan.copy()
+            bad["nope"] = [1.0] * self.nrows
+            kw_bad = dict(kw)
+            kw_bad["mc_to_scan" if self.via_mc else "to_scan"] = bad
+            try:
+                if self.scan_kind == "ss":
+                    mod.steady_state(m, **kw_bad)
+                else:
+                    mod.time_course(m, time_points=np.array(tps), **kw_bad)
+            except Exception as e:  # noqa: BLE001
+                ctx.note(f"refused: {type(e).__name__}")
+                ctx.true("a scan column that names nothing in the model is refused", True)
+                return
+            ctx.true("a scan column that names nothing in the model is refused", False, info="the column was ignored")
+            return
         if self.dup_labels:
             try:
                 if self.scan_kind == "ss":
@@ -388,6 +406,9 @@ def scenarios(tier, seed):
         scs.append(Scan("decay", "tc", ("k",), 2, par, fail_row=1, tps_from_zero=False))
         scs.append(Scan("decay", "proto", ("x",), 2, par, fail_row=0))
         scs.append(Scan("decay", "ptc", ("x",), 2, par, fail_row=1))
+    for sk in ("ss", "tc"):
+        scs.append(Scan("decay", sk, ("k",), 2, False, unknown_col=True))
+    scs.append(Scan("decay", "tc", ("k",), 2, True, unknown_col=True))
     # an earlier scan with y0= must not leak into this one; a repeated row label is refused or answered per row
     for sk in ("ss", "tc"):
         scs.append(Scan("decay", sk, ("k",), 2, False, after_y0_scan=True))
